@@ -156,6 +156,34 @@ def rule_barrier(ctx, R, path, who):
                  '"largest distance seen minus distance" over the whole stream (ANCHOR-MISSING if the engine was '
                  'restructured)')
         return 0
+    # votes of one (query, track) pair are grouped over the WHOLE stream (a map keyed by the pair), never by runs of
+    # adjacent elements: the stream order is schedule dependent
+    GROUPERS = ('into_group_map', 'into_group_map_by', 'into_grouping_map', 'into_grouping_map_by')
+    CONSECUTIVE = ('group_by', 'chunk_by', 'dedup', 'dedup_by', 'dedup_by_key', 'dedup_with_count', 'coalesce',
+                   'chunks', 'tuple_windows', 'dedup_by_with_count')
+    SORTS = ('sorted', 'sorted_by', 'sorted_by_key', 'sorted_unstable', 'sorted_unstable_by', 'sorted_unstable_by_key',
+             'sorted_by_cached_key')
+    owners = [b] + all_closures(F, b)
+    grp, bad = [], []
+    for ob in owners:
+        oeb = None
+        for c in ob.find_calls():
+            nm = c.name
+            if nm in GROUPERS or (nm in ('entry', 'get_mut', 'insert') and 'HashMap' in c.callee):
+                grp.append(c)
+            if nm in CONSECUTIVE and ('itertools' in c.callee or 'Itertools' in c.callee or 'std::vec::Vec' in c.callee
+                                      or 'slice' in c.callee):
+                oeb = oeb or ExprBuilder(ob)
+                recv = oeb.arg(c, 0)
+                if not any(recv.has_call(x) for x in SORTS) and not recv.has_call('sort_by') and not recv.has_call('sort'):
+                    bad.append((c, ob))
+    n += 1
+    ctx.check(bool(grp) and not bad, R, b, who + ':votes-grouped-over-the-whole-stream',
+              'grouping by %s' % sorted({c.name for c in grp}),
+              'the distances of a (query, track) pair are grouped by %s: only adjacent elements of the (schedule '
+              'dependent, unsorted) stream are merged, so vote counts and weights depend on the arrival order' % (
+                  sorted({c.name for c, _ in bad}) if bad else 'no whole-stream map (ANCHOR-MISSING)'),
+              bad[0][0].ln if bad else None)
     for local, d in acc.items():
         for wcb, wbb, wreads in d['writers']:
             # the running maximum ranges over ALL distances of the stream: its update is not gated by the
